@@ -82,6 +82,25 @@ func c08PanicClass(pv any, stack string) string {
 	return msg + "@" + fn
 }
 
+// c08FuzzClass is the signature component for a panic raised by one of the repository's fuzz
+// functions: the message up to the first value dump, numbers removed.
+func c08FuzzClass(pv any) string {
+	msg := fmt.Sprint(pv)
+	if e, ok := pv.(error); ok {
+		msg = e.Error()
+	}
+	for _, cut := range []string{"&", "{", ": "} {
+		if i := strings.Index(msg, cut); i > 8 {
+			msg = msg[:i]
+		}
+	}
+	msg = strings.TrimSpace(c08NumRe.ReplaceAllString(msg, "N"))
+	if len(msg) > 80 {
+		msg = msg[:80]
+	}
+	return msg
+}
+
 // c08Guard runs fn and reports a panic, if any.
 func c08Guard(fn func()) (pv any, stack string) {
 	defer func() {
@@ -422,7 +441,9 @@ type c08Cfg struct {
 	exp         uint8
 }
 
-func (c c08Cfg) String() string { return fmt.Sprintf("dg%v/rsa%v/af%v/exp%d", c.dg, c.rsa, c.af, c.exp) }
+func (c c08Cfg) String() string {
+	return fmt.Sprintf("dg%v/rsa%v/af%v/exp%d", c.dg, c.rsa, c.af, c.exp)
+}
 
 func (c c08Cfg) parser() *FrameParser {
 	p := NewFrameParser(c.dg, c.rsa, c.af)
@@ -670,7 +691,7 @@ func (x *c08X) total(data []byte, cfg c08Cfg, lvl protocol.EncryptionLevel, v pr
 		}
 		in := append([]byte{pre}, data...)
 		if pv, st := c08Guard(func() { h(in) }); pv != nil {
-			x.viol("C08|repofuzz-frames|panic|"+c08PanicClass(pv, st), fmt.Sprintf("fuzzing/frames.Fuzz panicked: %v", pv), map[string]any{"fuzz_input_hex": c08Hex(in), "stack": st})
+			x.viol("C08|repofuzz-frames|panic|"+c08FuzzClass(pv), fmt.Sprintf("fuzzing/frames.Fuzz panicked: %v", pv), map[string]any{"fuzz_input_hex": c08Hex(in), "stack": st})
 		}
 		x.l.Count("repofuzz_frames_calls", 1)
 	}
